@@ -16,7 +16,48 @@ def _t(*pairs):
 
 
 # well-formed merge tables (token bytes -> merge id); every entry is the concatenation of two earlier tokens / bytes
-TABLES = {
+class _Tables(dict):
+    """fixed family plus generated tables whose name spells the table: 'gen:ab,abc,cd' (tokens in id order)"""
+
+    def __missing__(self, name):
+        if isinstance(name, str) and name.startswith('gen:'):
+            return _t(*[(tok, i) for i, tok in enumerate(name[4:].split(','))])
+        raise KeyError(name)
+
+    def __contains__(self, name):
+        return dict.__contains__(self, name) or (isinstance(name, str) and name.startswith('gen:'))
+
+
+class _Alpha(_Tables):
+    def __missing__(self, name):
+        if isinstance(name, str) and name.startswith('gen:'):
+            toks = name[4:].split(',')
+            return (sorted({ord(c) for t in toks for c in t}), min(max(len(t) for t in toks) + 1, 5))
+        raise KeyError(name)
+
+
+def random_tables(seed, count):
+    """well-formed merge tables of 2-4 entries over {a, b, c, d}: every entry is the concatenation of two earlier tokens or
+    bytes, at most 5 bytes long, no duplicates; merges are preferred as operands so that multi-level tables are common"""
+    import random
+    rng = random.Random(1000003 * seed + 17)
+    out = []
+    while len(out) < count:
+        toks = []
+        for _ in range(rng.randint(2, 4)):
+            for _try in range(20):
+                pool = lambda: rng.choice(toks) if (toks and rng.random() < 0.6) else rng.choice('abcd')
+                cand = pool() + pool()
+                if len(cand) <= 5 and cand not in toks:
+                    toks.append(cand)
+                    break
+        name = 'gen:' + ','.join(toks)
+        if len(toks) >= 2 and name not in out:
+            out.append(name)
+    return out
+
+
+TABLES = _Tables({
     'none': _t(),
     'ab': _t(('ab', 0)),
     'chain': _t(('ab', 0), ('abc', 1)),
@@ -39,17 +80,21 @@ TABLES = {
     'left_first': _t(('cd', 0), ('bcd', 1), ('abcd', 2)),
     # merges that cut through 2-byte characters (ä = c3 a4, ö = c3 b6)
     'split_mb': _t((b'\xc3\xa4', 0), (b'\xc3\xa4\xc3', 1), (b'\xb6\xc3', 2), (b'\xc3\xb6\xc3', 3)),
-}
+    # the second operand of a follow-up merge is itself a merged token; a whole-word entry competing with lower ids
+    'mb_second': _t(('bc', 0), ('abc', 1), ('abcd', 2)),
+    'whole_word': _t(('bc', 0), ('ab', 1), ('cd', 2), ('abcd', 3)),
+})
 # per-table text alphabets (code points) and maximal text length for the long-word tables
-TABLE_ALPHA = {
+TABLE_ALPHA = _Alpha({
+    'mb_second': ([0x61, 0x62, 0x63, 0x64], 4), 'whole_word': ([0x61, 0x62, 0x63, 0x64], 4),
     'overlap5': ([0x61, 0x62, 0x63, 0x64, 0x65], 5), 'overlap6': ([0x61, 0x62, 0x63], 6), 'left_first': ([0x61, 0x62, 0x63, 0x64], 4),
     'split_mb': ([0xE4, 0xF6, 0xFC, 0x61], 3), 'both_r': ([0x61, 0x62, 0x63, 0x64, 0x20], 4), 'both_l': ([0x61, 0x62, 0x63, 0x64, 0x20], 4),
-}
+})
 BOUNDS = {
-    'quick': 'merge tables: the 19 well-formed tables of harnesses/c03.py (depth <= 4: chains, competing / overlapping merges, tokens '
+    'quick': 'merge tables: the 21 well-formed tables of harnesses/c03.py plus 16 generated well-formed tables of 2-4 merges over {a, b, c, d} sampled per VERIF_SEED (depth <= 4: chains, competing / overlapping merges, tokens '
              'extendable in both directions, merges across the leading space and through 2-byte characters); texts: <= 4 symbolic characters over '
              '{a, b, c, d, space, tab, ä} plus one unconstrained 3-byte character position; ignore_special_tokens both',
-    'thorough': 'texts of <= 5 symbolic characters',
+    'thorough': 'texts of <= 5 symbolic characters, 120 generated tables',
 }
 OUTSIDE = ['tables produced by train_bpe on real corpora (covered structurally by C19)', 'longer words', 'msgpack loading']
 ASSUMPTIONS = ['reference = repeatedly merge, among adjacent token pairs whose concatenation is a table entry, the pair with the '
@@ -65,6 +110,12 @@ def shapes(tier):
     for tb in TABLES:
         mx = TABLE_ALPHA[tb][1] if tb in TABLE_ALPHA else n
         for ln in range(0, mx + 1):
+            out.append({'table': tb, 'len': ln, 'special': 'default'})
+    # generated tables (a different sample for every VERIF_SEED): texts over the table's own alphabet, long enough for its
+    # longest token
+    import os
+    for tb in random_tables(int(os.environ.get('VERIF_SEED', '0') or 0), 16 if tier == 'quick' else 120):
+        for ln in range(3, TABLE_ALPHA[tb][1] + 1):
             out.append({'table': tb, 'len': ln, 'special': 'default'})
     out.append({'table': 'chain', 'len': 3, 'special': 'bos_eos', 'wide': True})
     out.sort(key=lambda s: -s['len'])
